@@ -220,6 +220,13 @@ func checkC11(c *Ctx) {
 	// one entry per metric needs one scope per identity: the root must be found in whichever shard a
 	// derivation ending in the root's identity hashes to (shared with C05 O1)
 	c.checkRootInEveryShard("O1 root-in-every-shard")
+	// "maps every bucket upper bound to the number of samples placed there": the histogram the
+	// snapshot walks has the bounds it was asked for (a cache hit is validated element-wise, shared
+	// with C03 O6 / C20 O4) and keeps them (the bound table is written only where it is allocated,
+	// shared with C20 O6)
+	c.checkBucketCacheGet("O1 histogram-own-bounds")
+	c.checkBucketsEqual("O1 histogram-own-bounds-equal")
+	c.checkBoundTablePrivate("O1 histogram-keeps-bounds")
 
 	// ---- O3 locks ---------------------------------------------------------------------------------
 	eng := c.newLockEngine()
